@@ -15,6 +15,20 @@ Theorem C14_layout_parses kls ls1 last w :
 Proof. exact (layout_parses kls ls1 last w). Qed.
 Print Assumptions C14_layout_parses.
 
+(* The same for Windows files and any whitespace padding: every line may be followed by \n or \r\n (freely mixed), and
+   may carry leading / trailing whitespace of any kind str.strip() removes (tabs, form feeds, blanks, \x1c-\x1f ...)
+   around a body of one of the three kinds above; the last line with or without its terminator. *)
+Theorem C14_layout_parses_padded_crlf (pls : list pline) (lastl : pline) w :
+  Forall pline_ok pls -> pline_ok lastl ->
+  let kls := map (fun x => (pl_kind x, pl_body x)) (pls ++ [lastl]) in
+  (nheaders kls <= 1)%nat ->
+  (List.concat (map line_toks kls) = map Some w \/ List.concat (map line_toks kls) = map Some w ++ [None]) ->
+  forall final_newline : bool,
+  parse (joinT (map (fun x => (pl_text x, pl_term x)) pls ++ (if final_newline then [(pl_text lastl, pl_term lastl)] else []))
+               (if final_newline then [] else pl_text lastl)) = Some w.
+Proof. exact (layout_parses_padded pls lastl w). Qed.
+Print Assumptions C14_layout_parses_padded_crlf.
+
 (* a sequence line of residues, blanks and digits contributes exactly its residues … *)
 Theorem C14_line_tokens_are_residues cs : forallb okc cs = true -> toks cs = map Some (res_of cs).
 Proof. exact (toks_okc cs). Qed.
@@ -43,6 +57,12 @@ Proof. exact (final_nonterminal_star a x b). Qed.
 Print Assumptions C14_non_final_star_rejected.
 
 (* non-vacuity: a FASTA file with numbering, 10-residue groups, a blank line and a final '*' *)
+Example C14_example_windows_tabs :
+  parse (list_ascii_of_string ">sp|X test " ++ [cr; nl; "009"%char] ++ list_ascii_of_string " 1 EKEKGSGSAA TY" ++
+         ["009"%char; cr; nl; nl; "012"%char] ++ list_ascii_of_string "13 PP*" ++ [cr; nl])
+  = Some [Glu; Lys; Glu; Lys; Gly; Ser; Gly; Ser; Ala; Ala; Thr; Tyr; Pro; Pro].
+Proof. exact layout_padded_example. Qed.
+
 Example C14_example :
   parse (list_ascii_of_string
     (">sp|X  test" ++ String nl ("    1 EKEKGSGSAA TY" ++ String nl ("" ++ String nl ("   13 PP*" ++ String nl "")))))
